@@ -1,7 +1,8 @@
 #!/venv/bin/python
 """tools/test_trans_c13.py — self-test of the generic additions of harness/trans_c13.py (`T13` over py2lean2's
 `Translator2M`): nested tuple targets, generator arguments of tuple()/list(), comprehensions with several generators,
-alias statements (an in-place statement on one name of an alias group rebinds all of them), tuple targets of a monadic
+alias statements (an in-place statement on one name of an alias group rebinds all of them; groups per `if` arm),
+inlined helpers, `a:b` = slice(a, b), isinstance with a tuple of classes, `!=` through the `==` rule, tuple targets of a monadic
 value, string constants, the iteration wrapper.  Sample functions are translated, the Lean text is type-checked and
 `#eval` of the translation is compared with Python on a grid of inputs.  Exit 0 iff everything agrees."""
 import itertools, os, shutil, subprocess, sys, tempfile
@@ -60,10 +61,47 @@ def f_strings(mode, k):
     return -k
 
 
+def _guard_nonempty(xs):
+    """extracted guard helper"""
+    if len(xs) == 0:
+        raise ZeroDivisionError
+
+
+def _scaled(xs, k):
+    ys = [x * k for x in xs]
+    return ys
+
+
+def f_inlined(xs, k):
+    _guard_nonempty(xs)
+    zs = _scaled(xs, k + 1)
+    return zs
+
+
+def f_alias_arms(xs, flag):
+    res = list(xs)
+    if flag:
+        cur = res
+    else:
+        cur = list(xs)
+    cur.append(7)
+    return res
+
+
+def f_norms(xs, k):
+    if isinstance(k, (bool, int)) and len(xs) != 2:
+        ys = xs[1:3]
+        return ys
+    return xs
+
+
 R = T.Rules13(
     expr=[("enumerate($x)", "((List.zipIdx {x}).map (fun p => ((p.2 : Int), p.1)))"),
           ("zip($a, $b)", "(List.zip {a} {b})"), ("list($x)", "{x}"),
-          ("safe_div($a, $b)", "safeDiv {a} {b}", "bind")],
+          ("safe_div($a, $b)", "safeDiv {a} {b}", "bind"), ("len($x) == $n", "(List.length {x} == {n})"),
+          ("isinstance($x, bool)", "false"), ("isinstance($x, int)", "true"),
+          ("$x[slice($a, $b)]", "(List.take ({b} - {a}) (List.drop {a} {x}))")],
+    inline_from=("__main__",),
     stmt=[("$l.append($x)", "l", "({l} ++ [{x}])")],
     alias=[("$x = $y if flag else $y", "x", "y")],
     strings={"constant": "true", "nearest": "false"},
@@ -80,6 +118,9 @@ CASES = [
     (f_alias_dropped, "(xs : List Int) (flag : Bool) : Option (List Int)", {"xs": "xs", "flag": "flag"}),
     (f_monadic_tuple, "(a b : Int) : Option Int", {"a": "a", "b": "b"}),
     (f_strings, "(mode : Bool) (k : Int) : Option Int", {"mode": "mode", "k": "k"}),
+    (f_inlined, "(xs : List Int) (k : Int) : Option (List Int)", {"xs": "xs", "k": "k"}),
+    (f_alias_arms, "(xs : List Int) (flag : Bool) : Option (List Int)", {"xs": "xs", "flag": "flag"}),
+    (f_norms, "(xs : List Int) (k : Int) : Option (List Int)", {"xs": "xs", "k": "k"}),
 ]
 LISTS = [[], [1], [2, 4], [3, 1, 4, 1, 5], [6, 2, 9, 0, 7], [-1, 3]]
 KS = [0, 2, 5]
@@ -93,6 +134,10 @@ def args_of(fn):
     n = fn.__name__
     if n in ("f_nested", "f_two_gens"):
         return [(a, b) for a in LISTS for b in LISTS[:4]]
+    if n in ("f_inlined", "f_norms"):
+        return [(a, k) for a in LISTS for k in KS]
+    if n == "f_alias_arms":
+        return [(a, f) for a in LISTS for f in (True, False)]
     if n == "f_gen_tuple":
         return [(a, k) for a in LISTS for k in KS]
     if n in ("f_alias", "f_alias_dropped"):
